@@ -3,6 +3,7 @@
 # Correspondence: generated select/where queries (all item kinds, EXCEPT, UNNEST, with/without WHERE and JOIN)
 # over ragged string/None tables through rbql.query (recording iterator/writer) and rbql.query_table.
 import itertools
+import importlib
 import lib
 import qgen
 import enginecheck as ec
@@ -30,7 +31,8 @@ def gen_case(ctx, g):
         join = g.join({'na': 1, 'nb': 1}) if r.random() < 0.7 else g.join({'na': na, 'nb': nb})
     cx = {'na': na, 'nb': nb}
     if join is None and r.random() < 0.12:
-        idxs = sorted(set(r.randint(0, na) for _ in range(r.randint(1, 2))))
+        # any order, the same column possibly named twice (a2 and a[2]): EXCEPT removes a SET of columns
+        idxs = [r.randint(0, na) for _ in range(r.randint(1, 3))]
         kind = ('except', idxs)
     else:
         kind = ('select', g.items(cx))
@@ -71,7 +73,11 @@ def run(ctx):
     exp, got = ec.evaluate(ctx, cases, THEOREM)
     for c, e, g_ in zip(cases[:3], exp[:3], got[:3]):
         ctx.sample({'query': c['q'], 'A': c['A'], 'B': c['B'], 'model': e, 'implementation': {k: g_.get(k) for k in ('events', 'pulls', 'error')} if isinstance(g_, dict) else g_})
+    # rbql-js/rbql.js is an anchor of this property too: the JavaScript leg runs language-neutral queries of this shape through rbql-js
+    importlib.import_module('props.c19').js_leg(ctx, THEOREM, 'select', 600 if ctx.tier == 'quick' else 60000)
 
 
 def replay(ctx, case):
+    if case.get('impl') == 'js':
+        return importlib.import_module('props.c19').replay(ctx, case)
     ec.replay(ctx, case, THEOREM)
